@@ -106,11 +106,11 @@ theorem unlink_child_keep {s : State} {p c c' p' : Nat} (hc : child s p c) :
     · rw [hk] at e1; cases e1
       exact ⟨ks.erase c', e2, (List.mem_erase_of_ne e).mpr hm⟩
 
-theorem link_child_keep {s : State} (h : Inv s) {p c c' q : Nat} (hc : child s p c) :
-    child (link s c' q).1 p c ∨
-      (c = c' ∧ (link s c' q).2 = true ∧ ∃ o, s.sup c = some o ∧ o ≠ q) := by
+theorem link_child_keep {lim : Nat} {s : State} (h : Inv s) {p c c' q : Nat} (hc : child s p c) :
+    child (linkBelow lim s c' q).1 p c ∨
+      (c = c' ∧ (linkBelow lim s c' q).2 = true ∧ ∃ o, s.sup c = some o ∧ o ≠ q) := by
   obtain ⟨ks, hk, hm⟩ := hc
-  rcases link_cases s c' q with ⟨e, _⟩ | ⟨qs0, hg, hkq, hcase⟩
+  rcases linkB_cases lim s c' q with ⟨e, _⟩ | ⟨qs0, hg, hkq, hcase⟩
   · left; rw [e]; exact ⟨ks, hk, hm⟩
   · have keep_p : ∀ kids' : Nat → Option (List Nat),
         kids' = upd s.kids q (some (ins c' qs0)) → ∃ ks', kids' p = some ks' ∧ c ∈ ks' := by
@@ -162,9 +162,17 @@ theorem edge_step {g : CState} (h : CInv g) (op : COp) {p c : Nat} (hc : child g
     · exact .inl e
     · right; right; subst e1; simp [escStep, e2]
   | link c' q =>
-    rcases link_child_keep h.inv (c' := c') (q := q) hc with e | ⟨e1, e2, o, e3, e4⟩
+    rcases link_child_keep (lim := Status.draining.toNat) h.inv (c' := c') (q := q) hc with e | ⟨e1, e2, o, e3, e4⟩
     · exact .inl e
-    · right; right; subst e1; simp [escStep, e2, e3, e4]
+    · right; right; subst e1
+      have e2' : (link g.t c q).2 = true := e2
+      simp [escStep, e2', e3, e4]
+  | linkStart c' q =>
+    rcases link_child_keep (lim := Status.stopping.toNat) h.inv (c' := c') (q := q) hc with e | ⟨e1, e2, o, e3, e4⟩
+    · exact .inl e
+    · right; right; subst e1
+      have e2' : (linkStart g.t c q).2 = true := e2
+      simp [escStep, e2', e3, e4]
   | xstep a =>
     show child (applyAct g.t (cact g (.xstep a))) p c ∨ _ ∨ _
     simp only [cact]
@@ -252,11 +260,45 @@ theorem rest_subtree {g : CState} (h : CInv g) (ops : List COp) {a z : Nat}
       · exact .inr ⟨x, DescP.of_desc_child hay hyx, .refl, r⟩
     · exact .inr ⟨w, h1, .tail h2 hyx, h3⟩
 
-/-- a draining / stopping / stopped actor gains neither a child nor a supervisor in any step of anybody -/
+/-- a draining / stopping / stopped actor gains no child in any step of anybody; it gains no supervisor
+either, except that a child a `drain()` lifted to `Draining` during `pre_start` is still linked by `start`
+(`link_starting`) — a `Stopping` / `Stopped` one never -/
 theorem conc_no_gain {g : CState} (h : CInv g) (op : COp) (z : Nat)
     (hz : Status.draining.toNat ≤ (g.t.status z).toNat) :
-    (∀ x, child (cstep g op).t z x → child g.t z x) ∧ (∀ q, (cstep g op).t.sup z = some q → g.t.sup z = some q) :=
-  (applyAct_facts h.inv (cact g op)).2.1 z hz
+    (∀ x, child (cstep g op).t z x → child g.t z x) ∧
+    ((Status.stopping.toNat ≤ (g.t.status z).toNat ∨ ∀ p, op ≠ .linkStart z p) →
+      ∀ q, (cstep g op).t.sup z = some q → g.t.sup z = some q) := by
+  obtain ⟨a, b⟩ := (applyAct_facts h.inv (cact g op)).2.1 z hz
+  refine ⟨a, fun hc => b ?_⟩
+  rcases hc with hc | hc
+  · exact .inl hc
+  · right; intro p e
+    cases op with
+    | linkStart c' p' =>
+      simp only [cact, TAct.linkStart.injEq] at e
+      exact hc p' (by rw [e.1])
+    | spawn => simp [cact] at e
+    | link c' p' => simp [cact] at e
+    | unlink c' p' => simp [cact] at e
+    | begin a' k => simp [cact] at e
+    | setStatus a' st => simp only [cact] at e; split at e <;> cases e
+    | xstep a' =>
+      simp only [cact] at e
+      cases hpc : g.pc a' with
+      | idle => rw [hpc] at e; simp [xact] at e
+      | pub => rw [hpc] at e; simp [xact] at e
+      | detach => rw [hpc] at e; simp [xact] at e
+      | unl o => rw [hpc] at e; cases o <;> simp [xact] at e
+      | publishStopped => rw [hpc] at e; simp [xact] at e
+      | done => rw [hpc] at e; simp [xact] at e
+      | term cl pend cur =>
+        rw [hpc] at e
+        cases cur with
+        | some y => rw [xact_take] at e; simp at e
+        | none =>
+          cases pend with
+          | cons y rest => simp [xact] at e
+          | nil => cases cl <;> simp [xact] at e
 
 /-- the worklist iteration of `Tree.visit` is the kill test followed by `take_children` -/
 theorem visit_eq_kill_take (t : State) (y : Nat) :
